@@ -317,7 +317,159 @@ def rule_K6(ctx: Ctx) -> None:
     ctx.judge(f, not late, {"identity_mutations_after_check": late}, "from_config does not touch identity fields after the check")
 
 
+class _AbsPath:
+    "a symbolic file-system path of the abstract run"
+
+    def __init__(self, t: str) -> None:
+        self.t = t
+
+    def __truediv__(self, o):
+        return _AbsPath(f"{self.t}/{getattr(o, 't', o)}")
+
+    def __eq__(self, o):
+        return isinstance(o, _AbsPath) and o.t == self.t
+
+    def __hash__(self):
+        return hash(self.t)
+
+    def __repr__(self):
+        return f"Path({self.t})"
+
+    def __str__(self):
+        return self.t
+
+
+_META_ONLY = {"applied_filters": {"self": [], "other": [{"name": "collect_generation_meta", "args": (), "kwargs": {}}]}}
+_META_PLUS = {"applied_filters": {"self": [], "other": [{"name": "cut_percentile_shortest", "args": (10.0,), "kwargs": {}}, {"name": "collect_generation_meta", "args": (), "kwargs": {}}]}}
+_READ_FAILURES = ("OSError", "EOFError", "KeyError", "ValueError", "RuntimeError", "NotImplementedError", "zipfile.BadZipFile", "zlib.error", "UnicodeDecodeError",
+                  "json.JSONDecodeError", "AssertionError", "TypeError", "IndexError", "AttributeError")
+
+
+def _from_config_run(index, f, world: dict, flags: dict):
+    "interpret from_config in one abstract world (state of the cache file) under the given flags: (outcome, events)"
+    from sa.fold import EvalRaised, Obj
+
+    events: list = []
+    file_ds = Obj("dataset", {"cfg": Obj("cfg", {"name": world.get("file_cfg", "req")}), "origin": "file"})
+
+    def hook(ev, node, env):
+        d = dotted_of(node.func) or ""
+        if d == "Path":
+            a = ev.ev(node.args[0], env)
+            return a if isinstance(a, _AbsPath) else _AbsPath(str(a))
+        if d == "ZANJ":
+            return "<zanj>"
+        if d.endswith(".to_fname"):
+            return "FNAME"
+        if d.endswith(".exists"):
+            p_ = ev.ev(node.func.value, env)
+            events.append(("exists", str(p_)))
+            return world["file"] != "absent"
+        if d.endswith((".as_posix", ".resolve", ".absolute")):
+            return ev.ev(node.func.value, env)
+        if d.endswith(".read") and d.split(".")[0] in ("cls", "GPTDataset", "MazeDataset"):
+            events.append(("read", str(ev.ev(node.args[0], env))))
+            if world["file"] == "absent":
+                raise EvalRaised("FileNotFoundError", "no such file")
+            if world["file"] == "unreadable":
+                raise EvalRaised(world["exc"], "damaged file")
+            return file_ds
+        if d.endswith(".download"):
+            events.append(("download",))
+            raise EvalRaised("NotImplementedError", "no download")
+        if d.endswith(".generate"):
+            events.append(("generate",))
+            return Obj("dataset", {"cfg": Obj("cfg", {"name": "req"}), "origin": "generated"})
+        if d.endswith("._apply_filters_from_config"):
+            o = ev.ev(node.func.value, env)
+            events.append(("filters",))
+            return Obj("dataset", {"cfg": o.attrs["cfg"], "origin": o.attrs["origin"] + "+filters"})
+        if d.endswith(".diff"):
+            other = ev.ev(node.args[0], env)
+            me = ev.ev(node.func.value, env)
+            if isinstance(other, Obj) and isinstance(me, Obj) and "name" in other.attrs and "name" in me.attrs:
+                return {} if other.attrs["name"] == me.attrs["name"] else world["diff"]
+        if d.endswith(".save"):
+            o = ev.ev(node.func.value, env)
+            events.append(("save", str(ev.ev(node.args[0], env)), o.attrs.get("origin") if isinstance(o, Obj) else repr(o)))
+            return None
+        if d == "warnings.warn":
+            events.append(("warn",))
+            return None
+        if d == "len":
+            return 7
+        if d == "print":
+            return None
+        return NotImplemented
+    env = {"cls": Obj("cls", {}), f.params()[1]: Obj("cfg", {"name": "req"}), "kwargs": {}, "zanj": None, "local_base_path": _AbsPath("<base>"), "verbose": False,
+           "do_generate": True, "load_local": True, "save_local": True, "do_download": True, "except_on_config_mismatch": True,
+           "allow_generation_metadata_filter_mismatch": True}
+    env.update(flags)
+    from sa.absobj import make_name_hook
+
+    name_hook = make_name_hook(index, f.module, lambda: {"__call__": hook})
+    try:
+        out = Evaluator({"__call__": hook, "__name__": name_hook}).run_body(X.body_wo_doc(f.node), env)
+        return ("return", out.attrs.get("origin") if isinstance(out, Obj) else repr(out)[:40]), events
+    except EvalRaised as e:
+        return ("raise", e.exc_name), events
+
+
+def rule_K7(ctx: Ctx) -> None:
+    """bounded semantic check (E15) of the cache protocol: from_config is interpreted in abstract worlds - cache file absent / readable and
+    matching / readable with another configuration / readable with only the tolerated metadata-filter difference / that difference plus another
+    filter / unreadable with each of 14 exception classes - and its outcome and its file events are compared with the statement"""
+    f = ctx.index.func(f"{DS}.GPTDataset.from_config")
+    worlds = [({"file": "absent"}, {}, "fresh"), ({"file": "readable"}, {}, "file"),
+              ({"file": "readable", "file_cfg": "other", "diff": {"seed": {"self": 1, "other": 2}}}, {}, "mismatch"),
+              ({"file": "readable", "file_cfg": "other", "diff": _META_ONLY}, {}, "file"),
+              ({"file": "readable", "file_cfg": "other", "diff": _META_ONLY}, {"allow_generation_metadata_filter_mismatch": False}, "mismatch"),
+              ({"file": "readable", "file_cfg": "other", "diff": _META_PLUS}, {}, "mismatch")]
+    worlds += [({"file": "unreadable", "exc": e_}, {}, "fresh") for e_ in _READ_FAILURES]
+    bad, unk = [], []
+    for world, flags, want in worlds:
+        try:
+            out, ev_ = _from_config_run(ctx.index, f, world, flags)
+        except Unknown as e:
+            unk.append(f"{world}: {e}"[:160])
+            continue
+        kinds = [e_[0] for e_ in ev_]
+        paths = {e_[1] for e_ in ev_ if e_[0] in ("exists", "read", "save")}
+        why = []
+        if want == "fresh":
+            if out != ("return", "generated+filters"):
+                why.append(f"outcome {out}, expected the freshly generated dataset with the configured filters applied")
+            if "save" not in kinds:
+                why.append("no file is written: the missing / damaged cache file is not replaced by a loadable one")
+            elif [e_ for e_ in ev_ if e_[0] == "save"][-1][2] != "generated+filters":
+                why.append("what is saved is not the dataset that is returned")
+            if kinds.count("generate") != 1 or ("filters" in kinds and kinds.index("filters") < kinds.index("generate")):
+                why.append("generation / filters not run exactly once in order")
+        elif want == "file":
+            if out != ("return", "file"):
+                why.append(f"outcome {out}, expected the cached dataset")
+            if "generate" in kinds or "save" in kinds:
+                why.append("a matching cache file is regenerated / overwritten")
+        elif want == "mismatch":
+            if out != ("raise", "ValueError"):
+                why.append(f"outcome {out}, expected ValueError (config mismatch)")
+            if "save" in kinds:
+                why.append("the foreign file is overwritten before the mismatch is reported")
+        if len(paths) > 1 or (paths and "FNAME" not in next(iter(paths))):
+            why.append(f"the path tested / read / written is not one path derived from cfg.to_fname(): {sorted(paths)}")
+        if why:
+            bad.append({"cache_file": world, "flags": flags, "why": why, "events": kinds})
+    ctx.judge(f, False if bad else None if unk else True, {"abstract_worlds": len(worlds), "deviations": bad[:3], "undecided": unk[:2]},
+              "missing or unreadable cache file (any exception class): regenerate, apply the filters, save under the requested name, return that dataset; matching file: "
+              "return it untouched; file of another configuration: ValueError, except for the single tolerated metadata-filter difference (when allowed)",
+              "the cache serves other data, keeps a damaged file, or fails on a damaged file instead of regenerating")
+    if not bad and not unk:
+        ctx.cover([f.qualname], by="C11.K7", supersedes=["C11.K1", "C11.K2", "C11.K3", "C11.K5"], whole_rules=["C11.K1", "C11.K2", "C11.K3", "C11.K5"],
+                  bound=f"{len(worlds)} abstract worlds of the cache file x flags")
+
+
 RULES = [
+    Rule("C11.K7", rule_K7, floor=1, doc="bounded semantic check of the cache protocol: from_config interpreted in abstract worlds of the cache file"),
     Rule("C11.K1", rule_K1, floor=3, doc="read failures fall through"),
     Rule("C11.K2", rule_K2, floor=2, doc="config check on every path; mismatch raises by default"),
     Rule("C11.K3", rule_K3, floor=2, doc="regenerate and overwrite"),
